@@ -4,9 +4,14 @@ property monitor on what the implementation printed.
 
 cfg:  t0=<ns>                      virtual time at which NewBreaker() ran
 ops:  t+ <ns>                                               => <state>
-      do <do|doacc|dofb|dofbacc> <ok|erra|erru|panic> ctx=<none|live|done> u=<m>
-                                                            => req=<n> fb=<n> ret=<r> panic=<0|1> fbarg=<a> drew=<0|1> <state>
-      allow ctx=<none|live|done> u=<m>                      => v=<pass|reject|ctx> drew=<0|1> <state>
+      do <do|doacc|dofb|dofbacc> <ok|erra|erru|tnil|brk|wbrk|panic|panicerr|goexit> ctx=<none|live|deadline|cancelmid|done|expired> u=<m>
+                                                            => req=<n> fb=<n> ret=<r> panic=<0|1|err|exit> fbarg=<a> drew=<0|1> <state>
+      allow ctx=<none|live|deadline|cancelmid|done|expired> u=<m>  => v=<pass|reject|ctx> drew=<0|1> <state>
+          (panic / panicerr / goexit: the request panics with a string, panics with an error value, calls runtime.Goexit —
+           one row of the decision table (`Outcome.panic`), observed as panic=1 / err / exit: the very value must come out;
+           tnil: a typed-nil error, not nil for the breaker; ctx deadline / cancelmid: a live context with a deadline far
+           ahead / cancelled by the request itself while it runs — the call counts like any other; expired: a deadline in the
+           past — like done, `ret=ctx` is the context's own error by identity)
       accept <i> | reject <i>     (i-th allow of the section) => ok <state> | nopromise <state>
       dump                                                  => n=<visited buckets> <i:sum/succ/fail/drop of the non-empty ones>
 <state> = h=<accepts>/<total>/<failingBuckets>/<workingBuckets> w=<Σsum>/<Σsucc>/<Σfail>/<Σdrop> lp=<lastPass ns>
@@ -16,11 +21,18 @@ Request outcomes: ok | erra | erru | brk (the request's own ErrServiceUnavailabl
 
       par g=<G> k=<K> fp=<fail%> mix=<seed> u=<m>            => calls=<n> succ=<a> fail=<b> rej=<c> bad=<anomalies> <state>
           (G goroutines x K calls on the one breaker, clock frozen; split taken from the observation, verdict schedule-free)
-      site <site> <class> p=<0|1> sf=<0|1> ua=<0|1> ig=<0|1> ctx=<none|live|done> u=<m>
-                                                            => req=<n> ret=<same|unavail|stunavail|http503|ctx|other|none> panic=<0|1> drew=<0|1> <state>
+      site <site>[~variant] <class> p=<0|1|2|3> sf=<0|1> ua=<0|1> ig=<0|1> ctx=<none|live|deadline|cancelmid|done|expired> u=<m>
+                                                            => req=<n> ret=<same|unavail|stunavail|http503|ctx|other|none> panic=<0|1|err|exit> drew=<0|1> <state>
+          (~variant: another public entry point that delegates to the same breaker call — sqlx: nc = without context
+           parameter, p = Partial scanner, rows = QueryRows on a statement; the model is the base site's)
           (one request through the real rest handler / zrpc interceptor / redis hook / sqlx connection; Sites.lean)
 cfg kind=named: one breaker per name (breakers.go); every op but `t+` ends with name=<x> and its observation with
       oth=<Σ sum of the other names' windows>; `t+` prints `<name> <state> | …` for the names created so far.
+      parfirst g=<G> k=<K> r=<R>  (named sections only)      => calls=<G*K> maxdistinct=<d> minrecorded=<m>
+          (R rounds: G goroutines, released together, make the FIRST use of one fresh name — GetBreaker(name), then K
+           successful Do(name, …) each; d = most different breakers handed out for one name in a round, m = fewest calls
+           the breaker of the name had recorded at the end of a round.  `Registry.get`: whoever comes first creates the
+           breaker, everybody else finds it — d = 1 and m = G*K under every schedule.)
 cfg kind=rw size=<n> iv=<d>: a bare RollingWindow; ops t+ <ns> | add <succ|fail|drop> => n=<visited> w=<Σ>; dump.
 cfg kind=race: `races => total=<n> known-errorwindow=<k> unknown=<u> [first=<frames>]`, the race detector's verdict.
 -/
@@ -46,21 +58,41 @@ def parseOutcome : String → Option Outcome
   | "brk" => some .brk
   | "wbrk" => some .wbrk
   | "panic" => some .panic
+  | "panicerr" => some .panic
+  | "goexit" => some .panic
+  | "tnil" => some .tnil
+  | _ => none
+
+/-- how the request of a `do` op unwinds (for the three outcome tokens that map to `Outcome.panic`) -/
+def parseUnwind : String → Unwind
+  | "panicerr" => .panicError
+  | "goexit" => .goexit
+  | _ => .panicValue
+
+/-- `p=` of a site op: 0 returns, 1 / 2 / 3 = the three `Unwind` kinds -/
+def parseP : String → Option (Option Unwind)
+  | "0" => some none
+  | "1" => some (some .panicValue)
+  | "2" => some (some .panicError)
+  | "3" => some (some .goexit)
   | _ => none
 
 def retStr : Ret → String
   | .nil => "nil" | .errA => "erra" | .errU => "erru" | .brk => "brk" | .wbrk => "wbrk" | .unavailable => "unavail"
-  | .fallbackResult => "fbres" | .ctxErr => "ctx"
+  | .fallbackResult => "fbres" | .ctxErr => "ctx" | .tnil => "tnil"
 
 def parseRet : String → Option Ret
   | "nil" => some .nil | "erra" => some .errA | "erru" => some .errU | "brk" => some .brk | "wbrk" => some .wbrk
-  | "unavail" => some .unavailable
+  | "unavail" => some .unavailable | "tnil" => some .tnil
   | "fbres" => some .fallbackResult | "ctx" => some .ctxErr | _ => none
 
 inductive Ctx | none | live | done deriving DecidableEq
 
+/-- `deadline` (far ahead) and `cancelmid` (cancelled by the request while it runs) are live when the entry point
+looks at the context; `expired` (deadline in the past) is done -/
 def parseCtx : String → Option Ctx
-  | "none" => some .none | "live" => some .live | "done" => some .done | _ => Option.none
+  | "none" => some .none | "live" => some .live | "deadline" => some .live | "cancelmid" => some .live
+  | "done" => some .done | "expired" => some .done | _ => Option.none
 
 def winStr (h : WinRes) : String := s!"{h.accepts}/{h.total}/{h.failingBuckets}/{h.workingBuckets}"
 def bucketStr (w : Bucket) : String := s!"{w.sum}/{w.succ}/{w.fail}/{w.drop}"
@@ -86,11 +118,11 @@ def parseState (obs : List String) : Option ImplState := do
 
 def b01 (b : Bool) : String := if b then "1" else "0"
 
-def callStr (evs : List Ev) (drew : Bool) : String :=
+def callStr (evs : List Ev) (drew : Bool) (uw : Unwind := .panicValue) : String :=
   let c := CallObs.ofEvents evs
   let ret := if c.panicked then "none" else retStr c.ret
   let fbarg := if c.fbRuns > 0 then "unavail" else "-"
-  s!"req={c.reqRuns} fb={c.fbRuns} ret={ret} panic={b01 c.panicked} fbarg={fbarg} drew={b01 drew}"
+  s!"req={c.reqRuns} fb={c.fbRuns} ret={ret} panic={if c.panicked then uw.obs else "0"} fbarg={fbarg} drew={b01 drew}"
 
 /-- window-total increase between two printed states; `none` if a total went down -/
 def bucketDelta (after before : Bucket) : Option Bucket :=
@@ -175,6 +207,9 @@ def parseSite : String → Option Site
   | "sqlstexec" => some .sqlx | "sqlstquery" => some .sqlxQuery | "sqlqueryrows" => some .sqlxQuery
   | _ => none
 
+/-- `site~variant`: a delegating entry point of the same site (the non-Ctx forwards, the Partial scanners) -/
+def siteBase (ss : String) : String := (ss.splitOn "~").headD ss
+
 /-- classes of the harness; a `w…`/`gw…` class is the same error wrapped with `%w` -/
 def parseErrClass (c : String) : Option ErrClass :=
   match c with
@@ -195,23 +230,26 @@ def parseErrClass (c : String) : Option ErrClass :=
     else none
 
 def parseSiteReq (s : Site) (cls p sf ua : String) : Option SiteReq :=
-  if s = .rest then
-    if cls.startsWith "h" then
-      (cls.drop 1).toNat?.map fun n => { code := if n = 0 then 200 else n, panics := p = "1" }
-    else none
-  else
-    match parseErrClass cls, ua.toNat? with
-    | some e, some n => some { err := e, panics := p = "1", fromScan := decide (s = .sqlxQuery) && sf = "1", userAccepts := n }
-    | _, _ => none
+  match parseP p with
+  | none => none
+  | some uw =>
+    if s = .rest then
+      if cls.startsWith "h" then
+        (cls.drop 1).toNat?.map fun n => { code := if n = 0 then 200 else n, panics := uw.isSome }
+      else none
+    else
+      match parseErrClass cls, ua.toNat? with
+      | some e, some n => some { err := e, panics := uw.isSome, fromScan := decide (s = .sqlxQuery) && sf = "1", userAccepts := n }
+      | _, _ => none
 
 def siteRetStr : SiteRet → String
   | .same => "same" | .unavailable => "unavail" | .statusUnavailable => "stunavail" | .http503 => "http503" | .ctxErr => "ctx"
 
-def siteCallStr (evs : List SEv) (drew : Bool) : String :=
+def siteCallStr (evs : List SEv) (drew : Bool) (uw : Unwind := .panicValue) : String :=
   let panicked := evs.contains .repanicked
   let ret := if panicked then "none" else
     (evs.findSome? fun | .returned r => some (siteRetStr r) | _ => none).getD "none"
-  s!"req={evs.count .ranReq} ret={ret} panic={b01 panicked} drew={b01 drew}"
+  s!"req={evs.count .ranReq} ret={ret} panic={if panicked then uw.obs else "0"} drew={b01 drew}"
 
 /-! ## one call through `accept()` (shared by `do`, `allow` and `site` ops) -/
 
@@ -265,7 +303,8 @@ def obsCallObs (obs : List String) (delta : Option Bucket) : CallObs :=
     marks := delta.getD ⟨99, 0, 0, 0⟩ }
 
 def doSpec (e : Entry) (o : Outcome) (es os : String) : CallSpec :=
-  { modelStr := fun p => callStr (doReqEvents p.verdict e o) p.draws
+  let uw := parseUnwind os
+  { modelStr := fun p => callStr (doReqEvents p.verdict e o) p.draws uw
     marks := fun p => marksOf (doReqEvents p.verdict e o)
     implRejected := fun obs => kvNat obs "req" 99 = 0
     check := fun rejected obs delta =>
@@ -278,6 +317,8 @@ def doSpec (e : Entry) (o : Outcome) (es os : String) : CallSpec :=
       else
         if ¬ admittedOk e o c ∨ (o ≠ .panic ∧ (parseRet (kvStr obs "ret")).isNone) then
           some s!"admitted call not accounted exactly ({es} {os}): [{impl}]"
+        else if o = .panic ∧ kvStr obs "panic" ≠ uw.obs then
+          some s!"admitted call ({es} {os}): the request's {if uw = .goexit then "Goexit" else "panic value"} did not come out unchanged (panic={uw.obs} expected): [{impl}]"
         else none
     expected := fun rejected => some (if rejected then .drop else if acceptable e.custom o then .succ else .fail)
     cover := fun p => s!"path-{repr p}" }
@@ -298,8 +339,8 @@ def allowSpec : CallSpec :=
 def siteAdmitMark (s : Site) (q : SiteReq) : Mark :=
   if s ≠ .rest ∧ q.panics then .fail else if s.pred q then .succ else .fail
 
-def siteSpec (s : Site) (q : SiteReq) (ss cls : String) : CallSpec :=
-  { modelStr := fun p => siteCallStr (siteEvents s p.verdict q) p.draws
+def siteSpec (s : Site) (q : SiteReq) (ss cls : String) (uw : Unwind := .panicValue) : CallSpec :=
+  { modelStr := fun p => siteCallStr (siteEvents s p.verdict q) p.draws uw
     marks := fun p => smarksOf (siteEvents s p.verdict q)
     implRejected := fun obs => kvNat obs "req" 99 = 0
     check := fun rejected obs delta =>
@@ -314,7 +355,7 @@ def siteSpec (s : Site) (q : SiteReq) (ss cls : String) : CallSpec :=
         let m := siteAdmitMark s q
         let want : Bucket := if m = .succ then { sum := 1, succ := 1 } else { sum := 1, fail := 1 }
         let wantRet := if q.panics then "none" else siteRetStr (s.admitRet q)
-        if kvNat obs "req" 99 ≠ 1 ∨ delta ≠ some want ∨ ret ≠ wantRet ∨ pn ≠ b01 q.panics then
+        if kvNat obs "req" 99 ≠ 1 ∨ delta ≠ some want ∨ ret ≠ wantRet ∨ pn ≠ (if q.panics then uw.obs else "0") then
           some s!"site {ss} {cls}: admitted request not resolved exactly once as {if m = .succ then "Accept" else "Reject"} by the site's predicate: [{impl}]"
         else none
     expected := fun rejected => some (if rejected then .drop else siteAdmitMark s q)
@@ -440,6 +481,7 @@ def runLine (sec : Nat) (acc : Report × DState) (l : Line) : Report × DState :
     | some e, some o, some ctx, some m =>
       let u : Rat := (m : Rat) / (twoPow53 : Rat)
       r := r.addCover s!"do-{es}-{os}"
+      r := r.addCover s!"do-ctx-{kvStr [cs] "ctx"}"
       if ctx = .done then
         r := r.addCover "ctx-done"
         return runUntouched sec r l st (callStr ctxDoneEvents false) "call with a done context"
@@ -453,6 +495,7 @@ def runLine (sec : Nat) (acc : Report × DState) (l : Line) : Report × DState :
     match parseCtx (kvStr [cs] "ctx"), (kvStr [us] "u").toNat? with
     | some ctx, some m =>
       let u : Rat := (m : Rat) / (twoPow53 : Rat)
+      r := r.addCover s!"allow-ctx-{kvStr [cs] "ctx"}"
       if ctx = .done then
         r := r.addCover "allow-ctx-done"
         let (r', st') := runUntouched sec r l st "v=ctx drew=0" "AllowCtx with a done context" (fun obs => kvStr obs "v" = "ctx")
@@ -462,26 +505,32 @@ def runLine (sec : Nat) (acc : Report × DState) (l : Line) : Report × DState :
         return (r', { st' with allows := st'.allows.push (decide (p.verdict = Verdict.pass)) })
     | _, _ => return bad r
   | "site" :: ss :: cls :: ps :: sfs :: uas :: igs :: cs :: us :: _ =>
-    match parseSite ss, parseCtx (kvStr [cs] "ctx"), (kvStr [us] "u").toNat? with
+    match parseSite (siteBase ss), parseCtx (kvStr [cs] "ctx"), (kvStr [us] "u").toNat? with
     | some s, some ctx, some m =>
       match parseSiteReq s cls (kvStr [ps] "p") (kvStr [sfs] "sf") (kvStr [uas] "ua") with
       | none => return bad r
       | some q =>
         let u : Rat := (m : Rat) / (twoPow53 : Rat)
+        let uw : Unwind := ((parseP (kvStr [ps] "p")).getD none).getD .panicValue
+        let ss0 := siteBase ss
         r := r.addCover s!"site-{ss}"
-        r := r.addCover s!"site-{ss}-class-{cls}"
-        if q.panics then r := r.addCover s!"site-{ss}-panic"
+        r := r.addCover s!"site-{ss0}-class-{cls}"
+        r := r.addCover s!"site-{ss0}-ctx-{kvStr [cs] "ctx"}"
+        if q.panics then r := r.addCover s!"site-{ss0}-unwind-{uw.obs}"
+        if s = .rest then
+          if kvStr [igs] "ig" = "1" then r := r.addCover "site-rest-writer-already-wrapped"
+          if kvStr [sfs] "sf" = "1" then r := r.addCover "site-rest-body-written"
         if s = .redisProcess ∧ kvStr [igs] "ig" = "1" then
           -- ProcessHook passes `blpop` around the breaker: the request runs, nothing is consulted or recorded
           r := r.addCover "site-rproc-ignored-cmd"
-          let model := if q.panics then "req=1 ret=none panic=1 drew=0" else "req=1 ret=same panic=0 drew=0"
+          let model := if q.panics then s!"req=1 ret=none panic={uw.obs} drew=0" else "req=1 ret=same panic=0 drew=0"
           return runUntouched sec r l st model "command that bypasses the breaker" (fun obs => kvNat obs "req" 99 = 1)
         else if ctx = .done ∧ s.usesCtx then
           r := r.addCover s!"site-{ss}-ctx-done"
           return runUntouched sec r l st "req=0 ret=ctx panic=0 drew=0" s!"site {ss} with a done context"
             (fun obs => kvNat obs "req" 99 = 0 ∧ kvStr obs "ret" = "ctx" ∧ kvStr obs "panic" = "0")
         else
-          let (r', st', _) := runCall sec r l st u (siteSpec s q ss cls)
+          let (r', st', _) := runCall sec r l st u (siteSpec s q ss cls uw)
           return (r', st')
     | _, _, _ => return bad r
   | "par" :: _ => return runPar sec r l st
@@ -511,6 +560,22 @@ def runNamedLine (sec : Nat) (acc : Report × NState) (l : Line) : Report × NSt
   let (r0, ns) := acc
   let mut r := r0
   match l.op with
+  | ["parfirst", gs, ks, rs] =>
+    -- concurrent first use of a fresh name: one breaker per name (`Registry.get` creates once, then finds)
+    r := { r with ops := r.ops + 1 }.addCover "named-concurrent-first-use"
+    let calls := kvNat [gs] "g" 0 * kvNat [ks] "k" 0
+    let model := s!"calls={calls} maxdistinct=1 minrecorded={calls}"
+    let impl := joinSp l.obs
+    if kvNat [rs] "r" 0 = 0 ∨ calls = 0 then return (r.mismatch sec l.idx "bad-op" (joinSp l.op), ns)
+    if (kv? l.obs "maxdistinct").isNone ∨ (kv? l.obs "minrecorded").isNone ∨ kvNat l.obs "calls" 0 ≠ calls then
+      return (r.mismatch sec l.idx model impl, ns)
+    let d := kvNat l.obs "maxdistinct" 0
+    let m := kvNat l.obs "minrecorded" 0
+    if d ≠ 1 then
+      r := r.violation sec l.idx s!"concurrent first use of one name: the goroutines were handed {d} different breakers for the same name (calls under one name must act on one breaker): [{impl}]"
+    else if m ≠ calls then
+      r := r.violation sec l.idx s!"concurrent first use of one name: the breaker of the name recorded {m} of the {calls} calls made under that name: [{impl}]"
+    return (r, ns)
   | ["t+", dts] =>
     match dts.toNat? with
     | none => return ({ r with ops := r.ops + 1 }.mismatch sec l.idx "bad-op" (joinSp l.op), ns)
